@@ -569,15 +569,17 @@ static void cleanup(void) {
   /* the ledger has a fixed number of tokens: start a new epoch when it runs low.  Only the value
      carriers are live at this point - unless an earlier violation leaked or abandoned elements,
      whose tokens a new epoch would invalidate: then the instance stops here (exhaustive:false). */
-  if (probe && vf_led_next > VF_LED_MAX - (1u << 18)) {
-    if (vf.viol_total != 0) {
+  if (vf_led_next > VF_LED_MAX - (1u << 18)) {
+    if (probe && vf.viol_total != 0) {
       vf.exhaustive = 0;
       vf_note("Probe ledger exhausted after earlier violations: exploration of this instance stopped early");
       vf_finish();
     }
-    for (int v = 0; v <= nvals; v++) del_raw(valobj[v]);
+    if (probe) for (int v = 0; v <= nvals; v++) del_raw(valobj[v]);
+    for (int v = 0; v < 3; v++) del_raw(ot_probe[v]);
     vf_led_reset();
-    for (int v = 0; v <= nvals; v++) valobj[v] = new_raw(ET, $I(v));
+    if (probe) for (int v = 0; v <= nvals; v++) valobj[v] = new_raw(ET, $I(v));
+    for (int v = 0; v < 3; v++) ot_probe[v] = new_raw(Probe, $I(v));
     led_base = vf_led_live;
   }
 }
